@@ -3,6 +3,8 @@
 package main
 
 import (
+	"fmt"
+
 	"github.com/NethermindEth/juno/consensus/types"
 	"verif/harness/lib"
 )
@@ -177,6 +179,11 @@ func runNilValueLead(res *lib.Result) {
 		sm.ProcessProposal(&types.Proposal[Val, Hsh, Adr]{MessageHeader: types.MessageHeader[Adr]{Height: 0, Round: 0, Sender: addr(0)}, ValidRound: -1})
 		return nil
 	})
+	if acts := sm.ProcessTimeout(types.Timeout{Step: types.Step(7), Height: 0, Round: 0}); acts == nil {
+		res.Hit("ProcessTimeout(unknown step)=nil")
+	} else {
+		res.Mismatch(lib.Mismatch{Sig: "timeout-unknown-step", Input: "step 7", Model: "nil (fall-through of the switch)", Impl: fmt.Sprint(len(acts))})
+	}
 	if panicked {
 		res.Hit("lead/proposal-with-nil-Value:state-machine-panics(nil dereference in findProposal)")
 	} else {
